@@ -225,6 +225,9 @@ def _reduce_axis(a, axis, fn):
 
 
 def nmin(a, axis=None, **k):
+    from . import lv as _lv
+    if isinstance(a, _lv.LV):
+        return _lv.MinMax(a, 'min', axis)
     if isinstance(a, _np.ndarray) and a.dtype == object and _has_sym(a):
         return _reduce_axis(a, axis, core.smin)
     if isinstance(a, (list, tuple)) and _has_sym(a):
@@ -233,6 +236,9 @@ def nmin(a, axis=None, **k):
 
 
 def nmax(a, axis=None, **k):
+    from . import lv as _lv
+    if isinstance(a, _lv.LV):
+        return _lv.MinMax(a, 'max', axis)
     if isinstance(a, _np.ndarray) and a.dtype == object and _has_sym(a):
         return _reduce_axis(a, axis, core.smax)
     if isinstance(a, (list, tuple)) and _has_sym(a):
@@ -531,7 +537,17 @@ def load(file, *a, **k):
     raise TypeError('symx: np.load of %r is not modelled' % (file,))
 
 
+def repeat(a, repeats, axis=None):
+    from . import lv as _lv
+    if isinstance(a, _lv.LV):
+        return a.repeat(repeats, axis)
+    return as_symnd(_np.repeat(a, repeats, axis))
+
+
 def nsum(a, axis=None, *args, **k):
+    from . import lv as _lv
+    if isinstance(a, (_lv.LV, _lv.KExpr)):
+        return _lv.KExpr('sum', [a])
     if isinstance(a, _np.ndarray) and a.dtype == object:
         if a.size == 0:
             return 0.0 if axis is None else as_symnd(_np.sum(a, axis=axis))
@@ -551,7 +567,7 @@ def concatenate(seq, *a, **k):
     from . import lv as _lv
     seq = list(seq)
     if any(isinstance(x, (_lv.LV, _lv.Region)) for x in seq):
-        return _lv.concatenate(seq)
+        return _lv.concatenate(seq, axis=k.get('axis', a[0] if a else 0))
     return as_symnd(_np.concatenate(seq, *a, **k))
 
 
@@ -564,7 +580,7 @@ def hstack(seq, *a, **k):
 
 
 _OVERRIDES = {
-    'concatenate': concatenate, 'hstack': hstack,
+    'concatenate': concatenate, 'hstack': hstack, 'repeat': repeat,
     'fromfile': fromfile, 'save': save, 'savez': savez, 'savez_compressed': savez_compressed,
     'load': load, 'empty': empty, 'empty_like': empty_like, 'zeros': zeros, 'ones': ones,
     'zeros_like': zeros_like, 'ones_like': ones_like, 'min': nmin, 'max': nmax, 'amin': nmin,
